@@ -62,6 +62,8 @@ type Contract struct {
 	OnlySafety   bool
 	Unfold       int
 	Cases        *CaseSplit
+	FnDecreases  *Clause
+	Partial      bool
 	Asserts      map[string][]Clause // call-site assertions
 }
 
@@ -280,7 +282,7 @@ var clauseKeywords = map[string]bool{
 	"props": true, "arith": true, "inline": true, "trusted": true, "pure": true, "requires": true,
 	"ensures": true, "assigns": true, "loop": true, "invariant": true, "decreases": true,
 	"func": true, "spec": true, "axiom": true, "instantiate": true, "nosafety": true,
-	"onlysafety": true, "unfold": true, "assert": true, "cases": true,
+	"onlysafety": true, "unfold": true, "assert": true, "cases": true, "partial": true,
 }
 
 var labelRe = regexp.MustCompile(`^([A-Za-z_][A-Za-z0-9_\-]*):(?:[^:]|$)`)
@@ -386,6 +388,8 @@ func (e *Engine) parseContracts(body, pkgPath, file string, line0 int) error {
 				cur.Pure = true
 			case "nosafety":
 				cur.NoSafety = true
+			case "partial":
+				cur.Partial = true
 			case "onlysafety":
 				cur.OnlySafety = true
 			case "unfold":
@@ -459,14 +463,15 @@ func (e *Engine) parseContracts(body, pkgPath, file string, line0 int) error {
 				}
 				curLoop.Invariants = append(curLoop.Invariants, cl)
 			case "decreases":
-				if curLoop == nil {
-					return fmt.Errorf("%s:%d: decreases outside loop", file, rc.line)
-				}
 				cl, err := mkClause(rc)
 				if err != nil {
 					return err
 				}
-				curLoop.Decreases = &cl
+				if curLoop == nil {
+					cur.FnDecreases = &cl // measure for recursive calls
+				} else {
+					curLoop.Decreases = &cl
+				}
 			}
 		}
 	}
